@@ -110,6 +110,61 @@ func c18Prefixes(b *board.Board, m move.Move) (sums []int, recaptures int) {
 	return sums, recaptures
 }
 
+// c18SameKindTags reports, for the destination square of m under the occupancy after the move, whether
+// some side attacks it with two or more pieces of ONE kind (the situation in which "the set of
+// attackers of a kind" and "the piece that captures" differ), whether one of those has an x-ray piece
+// behind it, and whether that one is the lowest-square one (the one the engine takes first) or not.
+func c18SameKindTags(b *board.Board, m move.Move) []string {
+	from, to := m.From(), m.To()
+	toBB := BitBoard(1) << to
+	occ := (b.Colors[White] | b.Colors[Black]) &^ (BitBoard(1) << from)
+	if b.IsEnPassant(m) {
+		occ &^= BitBoard(1) << b.CaptureSq(m)
+	}
+	all := func(o BitBoard) BitBoard {
+		return (b.Attackers(toBB, o, White) | b.Attackers(toBB, o, Black)) & o
+	}
+	base := all(occ)
+	seen := map[string]bool{}
+	var tags []string
+	add := func(t string) {
+		if !seen[t] {
+			seen[t] = true
+			tags = append(tags, t)
+		}
+	}
+	names := [...]string{"", "P", "N", "B", "R", "Q", "K"}
+	for c := White; c <= Black; c++ {
+		for p := Pawn; p <= Queen; p++ {
+			set := base & b.Colors[c] & b.Pieces[p]
+			if set.Count() < 2 {
+				continue
+			}
+			add("samekind>=2")
+			add("samekind>=2:" + names[p])
+			first := true
+			for x := set; x != 0; x &= x - 1 {
+				sq := x.LowestSet()
+				o := occ &^ (BitBoard(1) << sq)
+				if all(o)&^base != 0 {
+					add("samekind>=2+xray")
+					add("samekind>=2+xray:" + names[p])
+					if first {
+						add("samekind>=2+xray-behind-lowest:" + names[p])
+					} else {
+						add("samekind>=2+xray-behind-higher:" + names[p])
+					}
+					if (BitBoard(1)<<sq)&(AFileBB|HFileBB|FirstRankBB|EighthRankBB) == 0 && set&(AFileBB|HFileBB|FirstRankBB|EighthRankBB) != 0 {
+						add("samekind>=2+xray-behind-inner-with-rim-sibling:" + names[p])
+					}
+				}
+				first = false
+			}
+		}
+	}
+	return tags
+}
+
 func c18Thresholds(rng *hx.Rng, sums []int) []int {
 	set := map[int]struct{}{}
 	lo, hi := sums[0], sums[0]
@@ -136,11 +191,16 @@ func c18Thresholds(rng *hx.Rng, sums []int) []int {
 	return ts
 }
 
-func c18Emit(b *board.Board, kind, desc string, rng *hx.Rng, emit func(hx.Input)) int {
+// c18Emit emits one case per legal move of b. focus >= 0 (same-kind generator): every move onto that
+// square, the other moves only now and then (the other sources cover every legal move of a position).
+func c18Emit(b *board.Board, kind, desc string, focus int, rng *hx.Rng, emit func(hx.Input)) int {
 	in := (&hx.Nums{}).BoardIn(b).String()
 	fen := b.FEN()
 	cnt := 0
 	for _, m := range posgen.Legal(b) {
+		if focus >= 0 && int(m.To()) != focus && !rng.Chance(0.12) {
+			continue
+		}
 		sums, rec := c18Prefixes(b, m)
 		ts := c18Thresholds(rng, sums)
 		n := (&hx.Nums{}).U(uint64(m)).Int(len(ts)).Int(ts...)
@@ -172,6 +232,7 @@ func c18Emit(b *board.Board, kind, desc string, rng *hx.Rng, emit func(hx.Input)
 		if b.SquaresToPiece[m.From()] == King {
 			tags = append(tags, "king-moves")
 		}
+		tags = append(tags, c18SameKindTags(b, m)...)
 		emit(hx.Input{In: in + " " + n.String(),
 			Desc:       fmt.Sprintf("%s fen %s see %s thresholds %v  (%s)", kind, fen, m.String(), ts, desc),
 			Tags:       tags,
@@ -183,23 +244,44 @@ func c18Emit(b *board.Board, kind, desc string, rng *hx.Rng, emit func(hx.Input)
 }
 
 func genC18(rng *hx.Rng, n int, tier string, emit func(hx.Input)) {
+	// shares of the CASES (not of the positions): 30 % same-kind generator, 30 % battery generator,
+	// 40 % posgen; the source that is furthest below its share goes next
+	var got [3]int
+	share := [3]float64{0.30, 0.30, 0.40}
 	cnt := 0
 	for cnt < n {
-		if rng.Chance(0.55) {
-			// a burst of battery positions
+		src, worst := 0, 2.0
+		for k := range got {
+			if r := float64(got[k]) / (share[k] * float64(cnt+1)); r < worst {
+				src, worst = k, r
+			}
+		}
+		before := cnt
+		switch src {
+		case 0:
 			for k := 0; k < 8 && cnt < n; k++ {
-				if p := c18Battery(rng); p != nil {
-					cnt += c18Emit(p.B, p.Kind, p.Root, rng, emit)
+				if p, focus := c18SameKind(rng); p != nil {
+					cnt += c18Emit(p.B, p.Kind, p.Root, focus, rng, emit)
 				}
 			}
-			continue
-		}
-		posgen.Stream(rng, 6, func(p posgen.Pos) {
-			if cnt >= n {
-				return
+		case 1:
+			for k := 0; k < 8 && cnt < n; k++ {
+				if p := c18Battery(rng); p != nil {
+					cnt += c18Emit(p.B, p.Kind, p.Root, -1, rng, emit)
+				}
 			}
-			cnt += c18Emit(p.B, p.Kind, p.Desc(), rng, emit)
-		})
+		default:
+			posgen.Stream(rng, 6, func(p posgen.Pos) {
+				if cnt >= n {
+					return
+				}
+				cnt += c18Emit(p.B, p.Kind, p.Desc(), -1, rng, emit)
+			})
+		}
+		got[src] += cnt - before
+		if cnt == before {
+			got[src]++ // a source that produced nothing must not be asked forever
+		}
 	}
 }
 
@@ -369,6 +451,22 @@ func c18Battery(rng *hx.Rng) *posgen.Pos {
 			}
 			keep[t], keep[origin] = true, true
 			ep = string([]byte{byte('a' + f), byte('1' + t/8)})
+			// often a rook or queen of either colour on the file beyond the pawn that is captured (the line
+			// from it to the target opens when that pawn is lifted) and one beyond the capturing pawn's
+			// diagonal
+			if rng.Chance(0.6) {
+				step := -8
+				if stm == Black {
+					step = 8
+				}
+				for s, d := pawnSq+step, 1+rng.Intn(4); s >= 0 && s < 64; s, d = s+step, d-1 {
+					if d <= 1 {
+						g.put(s, c18col(rng, pickWeighted(rng, "rq", []int{2, 1}), rng.Bool()))
+						break
+					}
+					keep[s] = true
+				}
+			}
 		case x < 36:
 			// promotion (mostly with capture): the mover's pawn one step from the last rank
 			kind = "Bpr"
@@ -423,4 +521,202 @@ func c18Battery(rng *hx.Rng) *posgen.Pos {
 		return &posgen.Pos{B: b, Root: fen, Kind: kind}
 	}
 	return nil
+}
+
+// ---------------------------------------------------------------------------------------------
+// same-kind generator, kind "Bsk": promoted material aimed at one square. Each side gets one or two
+// groups of 2-3 attackers of ONE kind (bishops on one colour complex, queens, rooks, knights, or both
+// pawns) that attack the target directly from the lines through it - often from the edge of the board -
+// and each attacker may have an x-ray piece (own or enemy bishop/queen/rook) directly behind it. The
+// directions are drawn at random, so the attacker with something behind it is the lowest-numbered one
+// of its group (the one the engine takes first) as often as not.
+
+var c18Dirs = [8][2]int{{1, 0}, {-1, 0}, {0, 1}, {0, -1}, {1, 1}, {1, -1}, {-1, 1}, {-1, -1}}
+
+// sameKindSlider puts a slider c on a free ray leaving t (dirs: indices into c18Dirs still unused) and
+// possibly a piece behind it. It reports whether it placed the attacker.
+func (g *c18grid) sameKindSlider(rng *hx.Rng, t int, c byte, diagOK, orthOK bool, used *[8]bool, keep map[int]bool) bool {
+	var cand []int
+	for di := range c18Dirs {
+		if used[di] || (di < 4 && !orthOK) || (di >= 4 && !diagOK) {
+			continue
+		}
+		cand = append(cand, di)
+	}
+	for len(cand) > 0 {
+		k := rng.Intn(len(cand))
+		di := cand[k]
+		cand = append(cand[:k], cand[k+1:]...)
+		d := c18Dirs[di]
+		// the free squares of the ray, nearest first
+		var ray []int
+		f, r := t%8+d[0], t/8+d[1]
+		for f >= 0 && f < 8 && r >= 0 && r < 8 && g.sq[r*8+f] == 0 {
+			ray = append(ray, r*8+f)
+			f, r = f+d[0], r+d[1]
+		}
+		blockedByPiece := f >= 0 && f < 8 && r >= 0 && r < 8
+		if len(ray) == 0 {
+			continue
+		}
+		// distance: the rim square of the ray, or next to the target, or anywhere
+		var i int
+		switch x := rng.Intn(100); {
+		case x < 35 && !blockedByPiece:
+			i = len(ray) - 1
+		case x < 55:
+			i = 0
+		default:
+			i = rng.Intn(len(ray))
+		}
+		if keep[ray[i]] {
+			continue
+		}
+		g.sq[ray[i]] = c
+		for _, s := range ray[:i] {
+			keep[s] = true
+		}
+		used[di] = true
+		// something behind it
+		if i+1 < len(ray) && rng.Chance(0.65) {
+			j := i + 1
+			if j+1 < len(ray) && rng.Chance(0.25) {
+				keep[ray[j]] = true // one empty square in between
+				j++
+			}
+			if !keep[ray[j]] {
+				var bc byte
+				switch {
+				case rng.Chance(0.12):
+					bc = pickWeighted(rng, "np", []int{1, 1}) // a blocker that is no x-ray piece
+				case di >= 4:
+					bc = pickWeighted(rng, "bq", []int{1, 1})
+				default:
+					bc = pickWeighted(rng, "rq", []int{1, 1})
+				}
+				g.put(ray[j], c18col(rng, bc, rng.Bool()))
+			}
+		}
+		return true
+	}
+	return false
+}
+
+func c18SameKind(rng *hx.Rng) (*posgen.Pos, int) {
+	for attempt := 0; attempt < 80; attempt++ {
+		var g c18grid
+		keep := map[int]bool{}
+		var used [8]bool
+		// the groups of both sides first: [side][group] = kind
+		var plan [2][]byte
+		pawns := false
+		for side := range plan {
+			for gi := 1 + rng.Intn(2); gi > 0; gi-- {
+				k := pickWeighted(rng, "bqrnp", []int{30, 20, 17, 11, 22})
+				if pawns && rng.Chance(0.6) {
+					// against a pawn pair: recapturers that do not re-scan the diagonals themselves
+					k = pickWeighted(rng, "nr", []int{1, 1})
+				}
+				plan[side] = append(plan[side], k)
+				pawns = pawns || k == 'p'
+			}
+		}
+		if pawns && rng.Bool() {
+			plan[0], plan[1] = plan[1], plan[0]
+		}
+		t := rng.Intn(64)
+		switch x := rng.Intn(100); {
+		case pawns && x < 50:
+			// b-/g-file: one of the two capturing pawns is a rook pawn
+			t = (2+rng.Intn(4))*8 + []int{1, 6, 6, 6}[rng.Intn(4)]
+		case x < 35:
+			// one step from the rim (b-/g-file or 2nd/7th rank): the neighbouring attackers stand on the rim
+			f, r := rng.Intn(8), rng.Intn(8)
+			switch rng.Intn(4) {
+			case 0:
+				f = 1
+			case 1:
+				f = 6
+			case 2:
+				r = 1
+			default:
+				r = 6
+			}
+			t = r*8 + f
+		case x < 80:
+			t = (1+rng.Intn(6))*8 + 1 + rng.Intn(6) // off the rim, so that every ray exists
+		}
+		if rng.Chance(0.8) {
+			g.put(t, c18col(rng, pickWeighted(rng, "pnbrq", []int{30, 20, 20, 15, 15}), rng.Bool()))
+		}
+		keep[t] = true
+		for side, white := range []bool{true, false} {
+			for _, kind := range plan[side] {
+				cnt := 2 + rng.Intn(2)
+				switch kind {
+				case 'b':
+					for k := 0; k < cnt; k++ {
+						g.sameKindSlider(rng, t, c18col(rng, 'b', white), true, false, &used, keep)
+					}
+				case 'r':
+					for k := 0; k < cnt; k++ {
+						g.sameKindSlider(rng, t, c18col(rng, 'r', white), false, true, &used, keep)
+					}
+				case 'q':
+					for k := 0; k < cnt; k++ {
+						g.sameKindSlider(rng, t, c18col(rng, 'q', white), true, true, &used, keep)
+					}
+				case 'n':
+					offs := [8][2]int{{1, 2}, {2, 1}, {2, -1}, {1, -2}, {-1, -2}, {-2, -1}, {-2, 1}, {-1, 2}}
+					for k, tries := 0, 0; k < cnt && tries < 20; tries++ {
+						d := offs[rng.Intn(8)]
+						f, r := t%8+d[0], t/8+d[1]
+						if f < 0 || f > 7 || r < 0 || r > 7 || keep[r*8+f] {
+							continue
+						}
+						if g.put(r*8+f, c18col(rng, 'n', white)) {
+							k++
+						}
+					}
+				case 'p':
+					// both pawns that capture onto t, each with a diagonal slider behind it now and then
+					dr := -1
+					if !white {
+						dr = 1
+					}
+					for _, df := range []int{-1, 1} {
+						f, r := t%8+df, t/8+dr
+						if f < 0 || f > 7 || r < 1 || r > 6 || keep[r*8+f] || !g.put(r*8+f, c18col(rng, 'p', white)) {
+							continue
+						}
+						for di := 4; di < 8; di++ {
+							if c18Dirs[di][0] == df && c18Dirs[di][1] == dr {
+								used[di] = true
+							}
+						}
+						bf, br := f+df, r+dr
+						if bf >= 0 && bf < 8 && br >= 0 && br < 8 && !keep[br*8+bf] && rng.Chance(0.8) {
+							g.put(br*8+bf, c18col(rng, pickWeighted(rng, "bq", []int{1, 1}), rng.Bool()))
+						}
+					}
+				}
+			}
+		}
+		if !g.kings(rng, t, keep) {
+			continue
+		}
+		for k := rng.Intn(3); k > 0; k-- {
+			s := rng.Intn(64)
+			if !keep[s] {
+				g.put(s, c18col(rng, pickWeighted(rng, "pnbrq", []int{40, 15, 15, 15, 15}), rng.Bool()))
+			}
+		}
+		fen := g.fen(Color(rng.Intn(2)), "-")
+		b, err := board.FromFEN(fen)
+		if err != nil || !posgen.Valid(b) {
+			continue
+		}
+		return &posgen.Pos{B: b, Root: fen, Kind: "Bsk"}, t
+	}
+	return nil, -1
 }
